@@ -796,6 +796,107 @@ theorem LoadFromSlice_err_eq (zV : V) (h : Bytes → Nat) (sorter : List (SMap.I
   · have hlen' : ¬ llen kk = llen vv := by unfold llen; omega
     simp [StrMap_LoadFromSlice, hlen, hlen', absLoad, errOf, outOf, SMap.LErr.msg]
 
+theorem bind_congr_left {α β : Type} {x y : GM α} {K : α → GM β} {R : GM β} (hxy : x = y) (hk : y.bind K = R) :
+    x.bind K = R := by
+  subst hxy; exact hk
+
+/-- a failed `LoadFromSlice` returns its error with the receiver exactly as it was -/
+theorem LoadFromSlice_err_state (zV : V) (h : Bytes → Nat) (sorter : List (S_mapItem V) → List (S_mapItem V)) (fuel : Nat)
+    (m : S_StrMap V) (kk : List Bytes) (vv : List V) (hb : totalLen kk < 4611686018427387904)
+    (herr : kk.length ≠ vv.length ∨ SMap.anyKeyTooLarge kk = true) :
+    ∃ t, StrMap_LoadFromSlice zV h sorter fuel m kk vv = .ok (m, SErr.new t) := by
+  by_cases hlen : kk.length = vv.length
+  · have hlen' : llen kk = llen vv := by unfold llen; omega
+    have hbig : SMap.anyKeyTooLarge kk = true := by
+      rcases herr with c | c
+      · exact absurd hlen c
+      · exact c
+    refine ⟨"key too large", ?_⟩
+    simp only [StrMap_LoadFromSlice, hlen', ne_eq, not_true_eq_false, decide_false, if_false,
+      Bool.false_eq_true, Out.bind_eq]
+    have hl1 := fun L a b c => lfs_loop1 m L a b c kk 0 (by omega) (by omega)
+    simp only [hbig, if_true] at hl1
+    refine bind_congr_left (hl1 _ ?_ ?_ ?_) ?_
+    · intro sz; simp [StrMap_LoadFromSlice_loop1]
+    · intro k rest sz hk
+      have : llen k > 4294967295 := by unfold llen; unfold SMap.maxU32 at hk; omega
+      simp [StrMap_LoadFromSlice_loop1, this]
+    · intro k rest sz hk
+      have : ¬ llen k > 4294967295 := by unfold llen; unfold SMap.maxU32 at hk; omega
+      simp [StrMap_LoadFromSlice_loop1, this]
+    · simp
+  · have hlen' : ¬ llen kk = llen vv := by unfold llen; omega
+    exact ⟨"kv len not match", by simp [StrMap_LoadFromSlice, hlen']⟩
+
+theorem appendLoop_len (h : Bytes → Nat) : ∀ (l : List (Bytes × V)) (off : Nat),
+    (SMap.appendLoop h l off).2.length = l.length := by
+  intro l
+  induction l with
+  | nil => intro off; simp [SMap.appendLoop]
+  | cons x r ih => intro off; simp [SMap.appendLoop, ih]
+
+/-- `LoadFromSlice` is the model's `loadFromSlice` — both error returns and the success path — for EVERY receiver state,
+    every hash, every sorter, provided the keys are shorter than 2^62 bytes in total and the fuel exceeds the number of
+    slots -/
+theorem LoadFromSlice_eq (zV : V) (h : Bytes → Nat) (sorter : List (SMap.Item V) → List (SMap.Item V)) (fuel : Nat)
+    (m : S_StrMap V) (kk : List Bytes) (vv : List V) (hb : totalLen kk < 4611686018427387904)
+    (hf : ∀ p, SMap.calcSlots kk.length = .ok p → p < fuel) :
+    absLoad (StrMap_LoadFromSlice zV h (liftSorter sorter) fuel m kk vv) =
+      outOf (SMap.loadFromSlice h sorter (absMap m) kk vv) := by
+  by_cases herr : kk.length ≠ vv.length ∨ SMap.anyKeyTooLarge kk = true
+  · exact LoadFromSlice_err_eq zV h sorter fuel m kk vv hb herr
+  · have hlen : kk.length = vv.length := by
+      by_cases c : kk.length = vv.length
+      · exact c
+      · exact absurd (Or.inl c) herr
+    have hbig : ¬ SMap.anyKeyTooLarge kk = true := fun c => herr (Or.inr c)
+    have hlen' : llen kk = llen vv := by unfold llen; omega
+    have hvv : llen vv = ((vv.length : Nat) : Int) := rfl
+    have hs1 : ∀ {β : Type} (d : Sl β), sslice d 0 0 = .ok ⟨[], d.mem⟩ := by
+      intro β d
+      have : ¬ ((0 : Int) < 0 ∨ (0 : Int) > scap d) := by unfold scap; omega
+      simp [sslice, this]
+    have hmk : ∀ {β : Type} (z : β) (n : Nat), smake z 0 (n : Int) = .ok ⟨[], List.replicate n z⟩ := by
+      intro β z n
+      have : ¬ ((n : Int) < 0) := by omega
+      simp [smake, this]
+    have hR : outOf (SMap.loadFromSlice h sorter (absMap m) kk vv) =
+        outOf (SMap.makeHashtable sorter ⟨(SMap.appendLoop h (kk.zip vv) 0).1, (SMap.appendLoop h (kk.zip vv) 0).2, #[],
+          (absMap m).ht ++ (absMap m).spare⟩) := by
+      simp [SMap.loadFromSlice, hlen, hbig]
+    rw [hR]
+    simp only [StrMap_LoadFromSlice, hlen', ne_eq, not_true_eq_false, decide_false, if_false,
+      Bool.false_eq_true, Out.bind_eq]
+    have hl1 := fun L a b c => lfs_loop1 m L a b c kk 0 (by omega) (by omega)
+    simp only [hbig, if_false, Bool.false_eq_true, Int.zero_add] at hl1
+    refine absLoad_bind_congr (hl1 _ ?_ ?_ ?_) ?_
+    · intro sz; simp [StrMap_LoadFromSlice_loop1]
+    · intro k rest sz hk
+      have : llen k > 4294967295 := by unfold llen; unfold SMap.maxU32 at hk; omega
+      simp [StrMap_LoadFromSlice_loop1, this]
+    · intro k rest sz hk
+      have : ¬ llen k > 4294967295 := by unfold llen; unfold SMap.maxU32 at hk; omega
+      simp [StrMap_LoadFromSlice_loop1, this]
+    · -- the three `[:0]` resets, then the two capacity tests: in all four cases data and items are empty
+      simp only [Out.bind_ok, hs1, hvv, Out.bind_eq, Out.pure_eq]
+      split <;> split <;>
+      ( simp only [hmk, Out.bind_ok, Out.pure_eq]
+        refine absLoad_bind_ex (lfs_loop2 h vv _ ?_ ?_ kk [] vv 0 _ rfl rfl hlen) ?_
+        · intro i m; simp [StrMap_LoadFromSlice_loop2]
+        · intro k rest i m v hg; simp [StrMap_LoadFromSlice_loop2, hg]
+        · intro m' hm'
+          obtain ⟨q1, q2, q3⟩ := hm'
+          simp only [List.nil_append, List.length_nil] at q1 q2
+          have hil : m'.items.arr.length = kk.length := by
+            rw [q1, List.length_map, appendLoop_len, List.length_zip, hlen, Nat.min_self]
+          have hmh := makeHashtable_eq zV sorter fuel m' (by rw [q1]; exact items_repItem_slot _)
+            (by rw [hil]; exact hf)
+          have habs : absMap m' = ⟨(SMap.appendLoop h (kk.zip vv) 0).1, (SMap.appendLoop h (kk.zip vv) 0).2, #[],
+              (absMap m).ht ++ (absMap m).spare⟩ := by
+            simp [absMap, q1, q2, q3, Sl.mem, Function.comp_def]
+          rw [← habs, ← hmh]
+          exact absLoad_ret _ )
+
 /-! ## closed examples: the GENERATED LoadFromSlice / Get / Item / Len run on a map all of whose keys collide -/
 
 /-- a structurally recursive slot sorter (insertion sort) for kernel evaluation -/
